@@ -6,7 +6,7 @@
 // ------------------------------------------------------------------------
 
 use super::{BerDecoder, BerHeader, SnmpOid, TAG_RELATIVE_OID, Tag};
-use crate::error::SnmpResult;
+use crate::error::{SnmpError, SnmpResult};
 
 #[derive(Debug, PartialEq, Clone)]
 pub struct SnmpRelativeOid<'a>(&'a [u8]);
@@ -25,12 +25,18 @@ impl<'a> BerDecoder<'a> for SnmpRelativeOid<'a> {
 impl SnmpRelativeOid<'_> {
     /// Apply relative oid to absolute one
     /// and return normalized absolute oid
+    /// Apply relative oid to the absolute one.
+    /// Panics on malformed input, use `try_normalize` for untrusted data.
     pub fn normalize<'a>(&self, oid: &SnmpOid) -> SnmpOid<'a> {
-        // Number of subelements
+        self.try_normalize(oid).expect("invalid relative oid")
+    }
+    /// Apply relative oid to the absolute one, checking the input.
+    pub fn try_normalize<'a>(&self, oid: &SnmpOid) -> SnmpResult<SnmpOid<'a>> {
+        if oid.0.is_empty() {
+            return Err(SnmpError::InvalidData);
+        }
         let rel_si = SnmpRelativeOid::subelements(self.0);
-        // Number of subelements in base. First octet holds 2 subidentifiers.
         let base_si = SnmpRelativeOid::subelements(&oid.0[1..]) + 2;
-        //
         if rel_si < base_si - 2 {
             let offset = SnmpRelativeOid::find_subelement(&oid.0[1..], base_si - rel_si - 2)
                 .unwrap_or(0)
@@ -38,19 +44,22 @@ impl SnmpRelativeOid<'_> {
             let mut r = Vec::with_capacity(oid.0.len() + self.0.len());
             r.extend_from_slice(&oid.0[..offset]);
             r.extend_from_slice(self.0);
-            SnmpOid::from(r)
+            Ok(SnmpOid::from(r))
         } else {
-            // Replace fully
-            // First value is collapsed to one
+            // Full replace, first two arcs are packed into the single octet
+            if self.0.len() < 2 {
+                return Err(SnmpError::InvalidData);
+            }
+            let (first, second) = (self.0[0], self.0[1]);
+            if first > 2 || second >= 0x80 || (first < 2 && second >= 40) {
+                return Err(SnmpError::InvalidData);
+            }
             let mut r = Vec::with_capacity(self.0.len() - 1);
-            // Collapse first two values into one octet
-            r.push(self.0[0] * 40 + self.0[1]);
-            // Push others
+            r.push(first * 40 + second);
             r.extend_from_slice(&self.0[2..]);
-            SnmpOid::from(r)
+            Ok(SnmpOid::from(r))
         }
     }
-    // Calculate number of subelements
     #[inline]
     fn subelements(data: &[u8]) -> usize {
         data.iter().filter(|&c| c & 0x80 == 0).count()
